@@ -102,6 +102,9 @@ def success_paths(fn, targets=None, max_paths=3000, kinds=("ok",), feasible_only
 
     if 0 in can:
         walk(0, [], [], frozenset(), {})
+    if len(out) >= max_paths:
+        # never analyse a truncated path set silently (fail closed: the caller's ctx.guard turns this into a violation)
+        raise RuntimeError("success_paths(%s): more than %d paths — enumeration truncated" % (fn.short, max_paths))
     for p in out:
         ev = PathEval(fn, p["blocks"])
         p["ev"] = ev
@@ -156,6 +159,19 @@ def stores_on_path(fn, path, dest_re=None):
             if dest_re is not None and not re.search(dest_re, str(d)):
                 continue
             out.append({"bb": bb, "pos": i, "si": si, "dest": d, "value": ev.rv(s[2], i, si), "line": fn.stmt_line(s)})
+    return out
+
+
+def uncovered_stores(fn, paths, dest_re):
+    """Store sites (flow-insensitive, normal CFG) whose destination matches dest_re but which lie on none of the
+    enumerated paths (success_paths does not unroll loops: a store inside a loop body would otherwise be missed)."""
+    on = set()
+    for p in paths:
+        on.update(p["blocks"])
+    out = []
+    for w in A.field_writes(fn, dest_re):
+        if w["kind"] == "assign" and not fn.blocks[w["bb"]].get("cleanup") and w["bb"] not in on:
+            out.append(w)
     return out
 
 
